@@ -103,7 +103,7 @@ def rule_regs(cx, tier):
     r.analysed = {"vm_methods": len(fns), "methods_growing_registers": len(growing), "host_facing_growing": len(inst)}
     for needed in ("run", "call_and_run_function", "run_unary_op", "run_binary_op"):
         require(any(f.qual == VM + needed for f in inst), f"R-REGS: anchor {VM}{needed} is no longer a growing host-facing entry")
-    r.floor("host-facing growing entries", len(inst), 6)
+    r.floor("host-facing growing entries", len(inst), 4)
     trunc = trunc_summaries(cx)
     for fn in inst:
         cfg = cx.cfg(fn)
@@ -166,6 +166,61 @@ FRAMES_EXCEPTIONS = {
 }
 
 
+def nested_entry_wrappers(cx):
+    """KotoVm methods that hand their caller the Result of a nested `execute_instructions()` run unchanged (the value
+    written to the return place was moved there from the call's result): `run_frame_behind_barrier`-style helpers. A call
+    of such a wrapper is a nested interpreter entry for the caller. Fixpoint over wrappers of wrappers."""
+    cached = getattr(cx, "_nested_entry_wrappers", None)
+    if cached is not None:
+        return cached
+    entry = {VM + "execute_instructions"}
+    changed = True
+    while changed:
+        changed = False
+        for fn in cx.F.fns.values():
+            if fn.crate.uname != "koto_runtime" or fn.derived or not fn.qual.startswith(VM) or fn.qual in entry:
+                continue
+            if "Result<" not in (fn.local_tstr(0) or "") or "KValue" not in (fn.local_tstr(0) or ""):
+                continue
+            for c in fn.calls():
+                if c.short not in entry:
+                    continue
+                derived = {c.dest[0]}
+                grew = True
+                while grew:
+                    grew = False
+                    for b in fn.blocks:
+                        if b.cleanup:
+                            continue
+                        for st in b.stmts:
+                            if st[0] == "a" and not st[1][1] and st[1][0] not in derived and st[2][0] == "use":
+                                pl = op_place(st[2][1])
+                                if pl is not None and not pl[1] and pl[0] in derived:
+                                    derived.add(st[1][0])
+                                    grew = True
+                if 0 in derived:
+                    entry.add(fn.qual)
+                    changed = True
+                    break
+    cx._nested_entry_wrappers = entry
+    return entry
+
+
+def thin_entry_wrappers(cx):
+    """the wrappers among nested_entry_wrappers that do nothing but the entry protocol (set the barrier, run, pop the frame
+    on failure): for their callers a call is indistinguishable from a direct `execute_instructions()`"""
+    PROTOCOL = {VM + "frame_mut", VM + "execute_instructions", VM + "pop_frame"}
+    out = set()
+    for q in nested_entry_wrappers(cx):
+        fn = cx.F.fn(q)
+        if fn is None or q == VM + "execute_instructions":
+            continue
+        own = {c.short for c in fn.calls() if c.short.startswith(VM)}
+        if own <= PROTOCOL | out:
+            out.add(q)
+    return out
+
+
 def rule_frames(cx, tier):
     r = RuleResult("R-FRAMES", "every nested interpreter entry sets the execution barrier first and pops its "
                                "frame on the error outcome before leaving the function")
@@ -176,8 +231,13 @@ def rule_frames(cx, tier):
         for c in fn.calls():
             if c.short == VM + "execute_instructions":
                 sites.append((fn, c))
-    r.analysed = {"execute_instructions_call_sites": len(sites)}
-    r.floor("call sites of execute_instructions", len(sites), 7)
+    wrappers = nested_entry_wrappers(cx) - {VM + "execute_instructions"}
+    via = sum(1 for fn in cx.F.fns.values() if fn.crate.uname == "koto_runtime" for c in fn.calls() if c.short in wrappers)
+    r.analysed = {"execute_instructions_call_sites": len(sites), "wrappers": sorted(w[len(VM):] for w in wrappers),
+                  "entries_through_wrappers": via}
+    # the obligations are checked where execute_instructions is called; callers of a wrapper that returns the run's
+    # result inherit them, so they count as (covered) entries
+    r.floor("nested interpreter entries (direct + through wrappers)", len(sites) + via, 5)
     for fn, c in sites:
         r.instances += 1
         r.nontrivial += 1
@@ -1271,10 +1331,11 @@ def rule_err_swallow(cx, tier):
     ALLOWED = ("pop_frame", "drop_in_place", "clone", "extend_trace", "branch", "from_residual", "deref", "is_a", "borrow",
                "with_context", "fmt", "into", "from", "to_string", "truncate_registers", "as_ref", "eq", "type_id")
     n = 0
+    thin = thin_entry_wrappers(cx)
     for fn in F.fns.values():
         if fn.crate.uname != "koto_runtime" or fn.derived or not fn.qual.startswith(VM):
             continue
-        ex = [c for c in fn.calls() if c.short == VM + "execute_instructions"]
+        ex = [c for c in fn.calls() if c.short == VM + "execute_instructions" or c.short in thin]
         if not ex:
             continue
         cfg = cx.cfg(fn)
@@ -1343,16 +1404,41 @@ def rule_err_swallow(cx, tier):
                     for v, tb in b.term[2]:
                         if F.variant_by_discr("koto_runtime::error::ErrorKind", v) == "KotoError":
                             koto_edges.add((b.idx, tb))
-            # explore from the Err edge without taking a KotoError edge
+            # explore from the Err edge without taking a KotoError edge; bool flags assigned a constant on the way are
+            # remembered, so `let is_x = matches!(kind, KotoError {..}); if !is_x { return Err(e) }` is followed only along
+            # the outcome the flag really has on that path
             seen = set()
-            work = list(err_targets)
+            work = [(t, frozenset()) for t in err_targets]
             offending = None
             while work and offending is None:
-                b = work.pop()
-                if b in seen:
+                b, known0 = work.pop()
+                if (b, known0) in seen:
                     continue
-                seen.add(b)
+                seen.add((b, known0))
+                known = dict(known0)
+                for st in fn.blocks[b].stmts:
+                    if st[0] != "a" or st[1][1]:
+                        continue
+                    dst, rv = st[1][0], st[2]
+                    val = None
+                    if rv[0] == "use":
+                        if op_const(rv[1]) is not None and fn.local_tstr(dst) == "bool":
+                            val = bool(op_int(rv[1]))
+                        else:
+                            pl = op_place(rv[1])
+                            if pl is not None and not pl[1] and pl[0] in known:
+                                val = known[pl[0]]
+                    elif rv[0] == "un" and rv[1] == "Not":
+                        pl = op_place(rv[2])
+                        if pl is not None and not pl[1] and pl[0] in known:
+                            val = not known[pl[0]]
+                    if val is None:
+                        known.pop(dst, None)
+                    else:
+                        known[dst] = val
                 c2 = fn.call_at(b)
+                if c2 is not None:
+                    known.pop(c2.dest[0], None)
                 if c2 is not None:
                     last = (c2.pretty or c2.short or "").rsplit("::", 1)[-1]
                     if last not in ALLOWED:
@@ -1365,10 +1451,19 @@ def rule_err_swallow(cx, tier):
                 if any(st[0] == "a" and st[1][0] == 0 for st in fn.blocks[b].stmts) or \
                         (c2 is not None and c2.dest[0] == 0):
                     continue
+                t = fn.blocks[b].term
+                feasible = None
+                if t[0] == "switch" and op_base(t[1]) in known and not (op_place(t[1]) or [0, [1]])[1]:
+                    v = 1 if known[op_base(t[1])] else 0
+                    tgt = [tb for (val, tb) in t[2] if val == v]
+                    feasible = set(tgt) if tgt else {t[3]}
+                kf = frozenset(known.items())
                 for s2 in cfg.succ[b]:
                     if (b, s2) in koto_edges:
                         continue
-                    work.append(s2)
+                    if feasible is not None and s2 not in feasible:
+                        continue
+                    work.append((s2, kf))
             r.sample({"fn": fn.qual, "entry_line": c.line, "non_koto_errors_only_returned": offending is None})
             if offending is not None:
                 r.add(Finding("R-ERR-SWALLOW", fn.qual, "fallback-after-any-error:" + offending.short.rsplit("::", 1)[-1],
@@ -1377,7 +1472,7 @@ def rule_err_swallow(cx, tier):
                               f"error that is not a thrown koto.unimplemented -- a timeout, for instance -- is replaced by "
                               f"the fallback's outcome and becomes catchable", fn.file, offending.line))
     r.analysed = {"nested_entries_with_an_error_edge": n}
-    r.floor("nested interpreter entries with an error edge", n, 6)
+    r.floor("nested interpreter entries with an error edge", n, 4)
     return r
 
 
@@ -1390,13 +1485,56 @@ def rule_barrier_frame(cx, tier):
                    "KotoVm sets it, either the function pushed the frame itself (`push_frame` dominates the write and the "
                    "function makes no call through `call_callable`), or the write lies on the 'call stack has grown' outcome "
                    "of a comparison of `call_stack.len()` with its earlier value -- a native function, object or generator "
-                   "stored under a metakey pushes no frame, and the barrier would land on the caller's own frame")
+                   "stored under a metakey pushes no frame, and the barrier would land on the caller's own frame. A helper "
+                   "that sets the barrier unconditionally hands the obligation to each of its call sites")
     from .narrow import Sym, guards, leaves_of, edge_side
     INDIRECT = ("call_callable", "call_overridden_op_1", "call_overridden_op_2", "call_overridden_op_3")
+    vmfns = [fn for fn in cx.F.fns.values() if fn.crate.uname == "koto_runtime" and not fn.derived and fn.qual.startswith(VM)]
+    info = {}
+
+    def facts(fn):
+        if fn.name not in info:
+            cfg = cx.cfg(fn)
+            calls = fn.calls()
+            sym = Sym(cx, fn)
+            gs = [g for g in guards(cx, fn, sym) if g[2] in ("Eq", "Ne", "Lt", "Le", "Gt", "Ge") and
+                  any("len(self.call_stack)" in leaves_of(e) for e in (g[3], g[4]))]
+            info[fn.name] = (cfg, [c for c in calls if c.short.startswith(VM) and c.short[len(VM):] in INDIRECT],
+                             [c for c in calls if c.short == VM + "push_frame"], gs)
+        return info[fn.name]
+
+    def verdict_at(fn, bb):
+        cfg, indirect, pushes, gs = facts(fn)
+        if not indirect and any(cfg.dominates(c.bb, bb) for c in pushes):
+            return "own push_frame"
+        for (gb, dest, opn, le, re_, cty) in gs:
+            side = edge_side(cx, fn, cfg, gb, dest, bb)
+            len_is_lhs = "len(self.call_stack)" in leaves_of(le)
+            grown = {("Eq", "false"), ("Ne", "true")}
+            grown |= {("Gt", "true"), ("Le", "false")} if len_is_lhs else {("Lt", "true"), ("Ge", "false")}
+            if (opn, side) in grown:
+                return "call stack has grown"
+        return None
+
+    def obligations(fn, bb, depth, trail):
+        """[(function, block)] sites left unjustified for a barrier set at (fn, bb), following helpers up to their callers"""
+        if verdict_at(fn, bb) is not None:
+            return [], 0
+        # a function that makes the possibly-frameless call itself is the one that has to test the call stack
+        if depth >= 3 or fn.vis == "pub" or facts(fn)[1]:
+            return [(fn, bb)], 0
+        callers = [(g, c) for g in vmfns for c in g.calls() if c.short == fn.qual and (g.name, c.bb) not in trail]
+        if not callers:
+            return [(fn, bb)], 0
+        out, n = [], 0
+        for g, c in callers:
+            o, k = obligations(g, c.bb, depth + 1, trail | {(g.name, c.bb)})
+            out += o
+            n += 1 + k
+        return out, n
+
     n = 0
-    for fn in cx.F.fns.values():
-        if fn.crate.uname != "koto_runtime" or fn.derived or not fn.qual.startswith(VM):
-            continue
+    for fn in vmfns:
         writes = []
         for b in fn.blocks:
             if b.cleanup:
@@ -1405,40 +1543,25 @@ def rule_barrier_frame(cx, tier):
                 if st[0] == "a" and place_fields(st[1])[-1:] == ["execution_barrier"] and st[2][0] == "use" \
                         and op_const(st[2][1]) is not None and op_int(st[2][1]) not in (0, False):
                     writes.append(b.idx)
-        if not writes:
-            continue
-        cfg = cx.cfg(fn)
-        calls = fn.calls()
-        indirect = [c for c in calls if c.short.startswith(VM) and c.short[len(VM):] in INDIRECT]
-        pushes = [c for c in calls if c.short == VM + "push_frame"]
-        sym = Sym(cx, fn)
-        gs = [g for g in guards(cx, fn, sym) if g[2] in ("Eq", "Ne", "Lt", "Le", "Gt", "Ge") and
-              any("len(self.call_stack)" in leaves_of(e) for e in (g[3], g[4]))]
         for wb in writes:
             n += 1
             r.instances += 1
             r.nontrivial += 1
-            verdict = None
-            if not indirect and any(cfg.dominates(c.bb, wb) for c in pushes):
-                verdict = "own push_frame"
-            for (gb, dest, opn, le, re_, cty) in gs:
-                side = edge_side(cx, fn, cfg, gb, dest, wb)
-                len_is_lhs = "len(self.call_stack)" in leaves_of(le)
-                # outcome on which `len > old` holds
-                grown = {("Eq", "false"), ("Ne", "true")}
-                grown |= {("Gt", "true"), ("Le", "false")} if len_is_lhs else {("Lt", "true"), ("Ge", "false")}
-                if (opn, side) in grown:
-                    verdict = "call stack has grown"
-            r.sample({"fn": fn.qual, "line": line_of(fn, wb), "verdict": verdict or "unguarded"})
-            if verdict is None:
-                r.add(Finding("R-BARRIER-FRAME", fn.qual, "barrier-without-frame-test",
-                              "the execution barrier is set after a call that may not have pushed a frame (native function, "
+            open_sites, via = obligations(fn, wb, 0, frozenset())
+            n += via
+            r.instances += via
+            r.sample({"fn": fn.qual, "line": line_of(fn, wb), "verdict": verdict_at(fn, wb) or
+                      ("justified at each of its %d call sites" % via if not open_sites else "unguarded")})
+            for (g, bb) in open_sites:
+                r.add(Finding("R-BARRIER-FRAME", g.qual, "barrier-without-frame-test",
+                              "the execution barrier is set" + ("" if g is fn else f" (through {fn.qual[len(VM):]})") +
+                              " after a call that may not have pushed a frame (native function, "
                               "object, generator, `@call` map), with no test that `call_stack.len()` has grown: the barrier "
                               "lands on the caller's own frame and the nested `execute_instructions()` runs the rest of the "
                               "enclosing function (wrong results; `Empty call stack` panic for `@next`)",
-                              fn.file, line_of(fn, wb)))
-    r.floor("writes of execution_barrier = true in KotoVm", n, 4)
-    r.analysed = {"barrier_writes": n}
+                              g.file, line_of(g, bb)))
+    r.floor("barrier sites (writes of execution_barrier = true + call sites of helpers that set it)", n, 3)
+    r.analysed = {"barrier_sites": n}
     return r
 
 
@@ -1584,7 +1707,7 @@ def rule_reg_distinct(cx, tier):
                 r.add(Finding("R-REG-DISTINCT", fn.qual, f"{callee}:args{dups[0]}",
                               f"{callee} is called with the same register for its parameters #{dups[0][0]} and #{dups[0][1]}: "
                               f"one operand is used twice and another never reaches the operation", fn.file, c.line))
-    r.floor("KotoVm calls with two or more register arguments", n, 50)
+    r.floor("KotoVm calls with two or more register arguments", n, 37)
     r.analysed = {"calls_with_several_register_arguments": n}
     return r
 
@@ -1678,7 +1801,7 @@ def rule_module_canon(cx, tier):
                           "find_module returns a path that did not pass through canonicalize: the same file reached through "
                           "a different relative name gets a second cache entry and its top level runs again",
                           fn.file, line_of(fn, b.idx)))
-    r.floor("non-error returns of find_module", n, 2)
+    r.floor("non-error returns of find_module", n, 1)
     r.analysed = {"ok_returns": n}
     return r
 
